@@ -503,7 +503,40 @@ def r_state_closure(ctx, *entries):
             run.refute('R-STATE', f, 'rng-confined', rng[0][0].lineno,
                        '%s draws from / reseeds the global numpy generator (%s)' % (f.name, rng[0][1]),
                        inputs='any history of calls')
+    r_namesake(ctx, clo)
     return clo
+
+
+def r_namesake(ctx, fqs):
+    """a parameter forwarded to a dsw callee goes to the callee's parameter of the same name, not to a sibling"""
+    run = ctx.run
+    run.rule('R-NAMESAKE', "when a function forwards its own parameter q to a dsw callee that also has a parameter q, it binds "
+                           "it to q - not to another parameter p of the callee whose own namesake the caller has as well "
+                           "(swapped / crossed arguments)")
+    n = 0
+    for fq in sorted(fqs):
+        f = ctx.p.func(fq)
+        for nd, c, callee, q in ctx.calls()[fq]:
+            if callee is None:
+                continue
+            bound = []
+            pos = [x for x in callee.positional if x != 'self'] if callee.cls is not None else list(callee.positional)
+            for i, a in enumerate(c.args):
+                if isinstance(a, ast.Name) and i < len(pos):
+                    bound.append((pos[i], a.id))
+            for k in c.keywords:
+                if k.arg and isinstance(k.value, ast.Name):
+                    bound.append((k.arg, k.value.id))
+            for p, arg in bound:
+                if arg in f.params and arg != p and arg in callee.params and p in f.params and arg not in {d.name for d in f.defs if d.kind != 'param'}:
+                    n += 1
+                    run.refute('R-NAMESAKE', f, 'crossed-argument:%s<-%s' % (p, arg), nd.lineno,
+                               "%s passes its parameter `%s` as `%s` of %s although both functions have parameters named `%s` "
+                               "and `%s`: the two are crossed" % (f.name, arg, p, callee.name, p, arg),
+                               inputs='calls where the two arguments differ')
+    if not n:
+        run.ok('R-NAMESAKE', 'dsw', 'no-crossed-arguments', 'dsw', 'forwarded parameters reach their namesakes in %d functions' % len(fqs),
+               nontrivial=False)
 
 
 def _immutable_default(d):
